@@ -227,6 +227,9 @@ class Contract:
     variant: str = ""
     track_log: bool = False
     drift: list = field(default_factory=list)        # assumed-contract keys (SQL text ...): failing => undecided
+    abstract_locals: dict = field(default_factory=dict)   # local name -> "pageset" | "namerel" (ghost view of a container)
+    abstract_calls: dict = field(default_factory=dict)    # simple callee name -> abstract handler (assumed contract)
+    asserts: dict = field(default_factory=dict)           # statement fingerprint -> clauses checked before it runs
     pop_guard: bool = False
     ctx_facts: list = field(default_factory=list)
 
@@ -358,7 +361,7 @@ class X:
             return v.t["len"] > 0
         if k == "sseq":
             return z3.Length(v.t) > 0
-        if k in ("func", "ctx", "mod", "match", "type"):
+        if k in ("func", "ctx", "mod", "match", "type", "page"):
             return z3.BoolVal(True)
         if k == "opq":
             return z3.Bool("truth!" + v.t)
@@ -371,6 +374,9 @@ class X:
     def truth_st(self, v: V, st: St):
         if v.k == "ref":
             o = st.heap[v.t]
+            if type(o).__name__ == "HSet":
+                from . import absmodels
+                return o.arr != absmodels.EMPTY
             if getattr(o, "items", None) is not None:
                 return z3.BoolVal(len(o.items) > 0)
             return z3.Bool(fresh_name("truth"))
@@ -747,6 +753,15 @@ class X:
             return self.bind(self.ev(e.args[0], st, chain),
                              lambda s, a: self.branch(s, a, lambda s2: self.ev(e.args[1], s2, chain),
                                                       lambda s2: [(s2, vbool(True))]))
+        if isinstance(e.func, ast.Name) and self.in_clause and e.func.id in ("forall_t", "forall_n") \
+                and len(e.args) == 1 and isinstance(e.args[0], ast.Lambda):
+            from . import absmodels
+            return absmodels.quantifier(self, st, e.func.id, e.args[0], chain)
+        if isinstance(e.func, ast.Name) and self.in_clause:
+            from . import absmodels
+            if e.func.id in absmodels.CLAUSE_BUILTINS and not self.lookup(e.func.id, st, chain):
+                return self.bind_seq(list(e.args), st, chain,
+                                     lambda s, vs: absmodels.clause_builtin(self, s, e.func.id, vs, {}, e, chain))
         if isinstance(e.func, ast.Name) and e.func.id == "old" and self.in_clause:
             # old(expr): evaluate against the entry snapshot's ghost state
             cur = st.ghost
@@ -903,6 +918,14 @@ class X:
         for s_ in stmts:
             if loader.is_dropped_stmt(s_):
                 continue
+            if self.c.asserts and self.depth == 0:
+                key = loader.norm(s_)[:60]
+                for akey, clauses in self.c.asserts.items():
+                    if key.startswith(akey):
+                        self.matched_loops.add("assert:" + akey)
+                        for c in cur:
+                            for cl in clauses:
+                                self._oblige_clause("assert", cl, c, chain, NONE, c.entry, "before " + akey, s_)
             nxt = []
             for c in cur:
                 for s2, oc in self.stmt(s_, c, chain):
@@ -1074,7 +1097,16 @@ class X:
             return [(st, ("fall",))]
         return self._exprs_to_outcomes(self.ev(s_.value, st, chain))
 
+    def _abstract_target(self, tgt):
+        return isinstance(tgt, ast.Name) and tgt.id in self.c.abstract_locals and self.depth == 0
+
     def st_Assign(self, s_, st, chain):
+        if len(s_.targets) == 1 and self._abstract_target(s_.targets[0]):
+            from . import absmodels
+            self.assign_name(s_.targets[0].id, absmodels.make_abstract_local(
+                self, st, self.c.abstract_locals[s_.targets[0].id]), st, chain)
+            return [(st, ("fall",))]
+
         def fin(s, v):
             for t in s_.targets:
                 self.assign_target(t, v, s, chain)
@@ -1083,6 +1115,11 @@ class X:
 
     def st_AnnAssign(self, s_, st, chain):
         if s_.value is None:
+            return [(st, ("fall",))]
+        if self._abstract_target(s_.target):
+            from . import absmodels
+            self.assign_name(s_.target.id, absmodels.make_abstract_local(
+                self, st, self.c.abstract_locals[s_.target.id]), st, chain)
             return [(st, ("fall",))]
 
         def fin(s, v):
@@ -1347,6 +1384,9 @@ class X:
             if isinstance(n, ast.Call) and isinstance(n.func, ast.Attribute) and \
                     isinstance(n.func.value, ast.Name) and n.func.attr in MUTATING_METHODS:
                 names.add(n.func.value.id)
+            if isinstance(n, ast.Call) and isinstance(n.func, ast.Attribute) and n.func.attr in MUTATING_METHODS \
+                    and isinstance(n.func.value, ast.Subscript) and isinstance(n.func.value.value, ast.Name):
+                names.add(n.func.value.value.id)     # d[k].add(v) mutates d (defaultdict rows)
             if isinstance(n, ast.Subscript) and isinstance(n.ctx, (ast.Store, ast.Del)) and \
                     isinstance(n.value, ast.Name):
                 names.add(n.value.id)
@@ -1388,6 +1428,10 @@ class X:
             cur = self.lookup(n, st, chain)
             if cur is not None and cur.k == "ref":
                 o = st.heap[cur.t]
+                if type(o).__name__ in ("HSet", "HRel"):
+                    from . import absmodels
+                    absmodels.havoc_abstract(self, st, cur)
+                    continue
                 if isinstance(o, HList):
                     st.heap[cur.t] = HList(None, o.elem if o.items is None else self._elem_kind(o.items))
                 elif isinstance(o, HDict):
@@ -1520,8 +1564,22 @@ class X:
                     lg = head.ghost.get("sql_log")
                     if lg is not None:
                         head.ghost["sql_log"] = V("sqllog", lg.t + (("loop", "<loop>", None, V("tuple", ())),))
+        pkey = "processed"
+        if spec and spec.get("foreach") and is_for:
+            from . import absmodels
+            pkey, psort, pempty, _ = absmodels.processed_key(itv)
+        outer_processed = st.ghost.get(pkey)
+        if spec and spec.get("foreach") and is_for:
+            st.ghost[pkey] = V("zarr", pempty)       # nothing processed on entry (inv-init)
+            head.ghost[pkey] = V("zarr", z3.Const(fresh_name(pkey), psort))
         if spec and (spec.get("havoc_ghost") or spec.get("invariant")):
             self._apply_loop_invariant(s_, st, head, chain, spec, fp)
+        if spec and spec.get("foreach") and is_for:
+            if outer_processed is None:
+                st.ghost.pop(pkey, None)
+            else:
+                st.ghost[pkey] = outer_processed
+        self._outer_processed = (pkey, outer_processed)
         # variables that are Optional[scalar] across iterations: one head state
         # per combination (none / fresh scalar)
         heads = [head]
@@ -1557,7 +1615,31 @@ class X:
         # sound over-approximation of "entry state" as well
         exit_states = []
         body_state = head.fork()
-        if is_for:
+        foreach = bool(spec and spec.get("foreach")) and is_for
+        member_of = None
+        cur_title = None
+        pkey, saved_processed = getattr(self, "_outer_processed", ("processed", None))
+        if foreach:
+            from . import absmodels
+            proc = head.ghost[pkey].t
+            qsort = absmodels.processed_key(itv)[3]
+            body_state = head.fork()
+            r = absmodels.iter_element(self, body_state, itv, proc)
+            if r is None:
+                raise OutOfReach("foreach over a non-abstract iterable")
+            elem, cur_title, member_of = r
+            self.assign_target(s_.target, elem, body_state, chain)
+            body_starts = [body_state]
+            ex = head.fork()
+            if member_of is not None:
+                q = z3.Const(fresh_name("q"), qsort)
+                ex.pc.append(z3.ForAll([q], z3.Implies(z3.Select(member_of(ex), q), z3.Select(proc, q))))
+            if saved_processed is not None:
+                ex.ghost[pkey] = saved_processed
+            else:
+                ex.ghost.pop(pkey, None)
+            exit_states.append(ex)
+        elif is_for:
             elem = models.generic_element(self, body_state, itv)
             self.assign_target(s_.target, elem, body_state, chain)
             body_starts = [body_state]
@@ -1576,6 +1658,9 @@ class X:
         for bs in body_starts:
             for s2, oc in self.block(s_.body, bs, chain):
                 if oc[0] in ("fall", "continue"):
+                    if foreach and cur_title is not None:
+                        s2.ghost = dict(s2.ghost)
+                        s2.ghost[pkey] = V("zarr", z3.Store(s2.ghost[pkey].t, cur_title, True))
                     if spec and spec.get("invariant"):
                         self._check_loop_invariant(s_, s2, chain, spec, fp, "inv-keep")
                     else:
@@ -1626,6 +1711,9 @@ class X:
         for gname in spec.get("havoc_ghost", []):
             if gname == "memo_valid":
                 head.ghost[gname] = V("bool", z3.Bool(fresh_name("hv_memo")))
+            elif gname == "M":
+                from . import absmodels
+                head.ghost[gname] = V("zarr", z3.Const(fresh_name("hv_M"), absmodels.TSet))
             else:
                 head.ghost[gname] = V("sseq", z3.Const(fresh_name("hv_" + gname), SeqS))
         for cl in spec.get("invariant", []):
@@ -1723,7 +1811,7 @@ class X:
             else:
                 raise OutOfReach(f"stray {oc[0]} at function level")
         self.nreturns = nret
-        missing = set(self.c.loops) - self.matched_loops
+        missing = (set(self.c.loops) | {"assert:" + k for k in self.c.asserts}) - self.matched_loops
         if missing:
             raise OutOfReach(f"contract drift: loop(s) {sorted(missing)} named by the sidecar not found in the source")
         return self.obligs
